@@ -162,7 +162,18 @@ func openWalOn(d *simfs.Disk, segSize int, coll metrics.Collector) (*wal.WAL, er
 }
 
 // runRecorded executes ops on disk d (which may be a crash image) and returns the spans. "open" is the first op.
+// rotHold is held while a recorded StoreLogs is in flight (see runRecorded)
+var rotHold sync.Mutex
+
+func holdRotationHook(point string) {
+	if point == "runRotate:before-lock" {
+		rotHold.Lock()
+		rotHold.Unlock() //nolint:staticcheck // a gate, not a critical section
+	}
+}
+
 func runRecorded(d *simfs.Disk, segSize int, ops []string) (spans []opSpan, w *wal.WAL) {
+	wal.SetVerifYield(holdRotationHook)
 	im := &walImpl{disk: d, segSize: segSize, coll: metrics.NewAtomicCollector(wal.MetricDefinitions)}
 	for _, op := range ops {
 		sp := opSpan{op: op, start: d.NumEvents()}
@@ -181,9 +192,14 @@ func runRecorded(d *simfs.Disk, segSize int, ops []string) (spans []opSpan, w *w
 				for _, t := range ws[1:] {
 					logs = append(logs, parseLogTok(t))
 				}
+				// the background rotation this append may trigger is held at its yield point until the point at which
+				// StoreLogs returned has been recorded: on a loaded machine the rotation goroutine could otherwise take the
+				// write lock and commit before `ack` is read, and its I/O would be counted as preceding the return
+				rotHold.Lock()
 				err := im.w.StoreLogs(logs)
 				sp.result = walClass(err)
 				sp.ack = d.NumEvents()
+				rotHold.Unlock()
 				im.w.DeleteRange(math.MaxUint64, math.MaxUint64) // wait for the background rotation
 				spans = append(spans, sp)
 				continue
